@@ -393,4 +393,29 @@ def genScope (p : Char → Bool) (g : VIn) (outer : List S) : Scope :=
 def wellScoped (p : Char → Bool) (g : VIn) (outer : List S) : Bool :=
   (checkL2 (genScope p g outer) [t "o"] (genBody p g)).isSome
 
+/-! ### the premises of the scoping theorem, executable -/
+
+def fixedLocals : List S := [t "o", t "init_kwargs", t "i", t "field", t "v1", t "e", t "extra_keys"]
+
+/-- every outside name the skeleton can use, whatever the class -/
+def allOuter : List S :=
+  [t "cls", t "fields", t "MISSING", t "re_raise", t "raise_missing_fields", t "locals", t "Exception", t "__pre_from_dict__",
+   t "aliases", t "len", t "set", t "UnknownKeysError", t "LOG", t "safe_get"]
+
+/-- the shape of a field variable `__<f>__v` -/
+def shaped (n : S) : Bool := (t "__").isPrefixOf n && (t "__v").isSuffixOf n
+
+/-- may the body bind `n`?  (a fixed local, something shaped like a field variable, a name a value expression binds) -/
+def bindableB (g : VIn) (n : S) : Bool :=
+  fixedLocals.contains n || shaped n || g.fields.any (fun f => f.exprWrites.contains n || f.exprBinds.contains n)
+
+def lookupOkB (f : VField) : Bool := f.lookup != .anyOf [] && f.lookup != .pathAnyOf []
+
+/-- the premises of `C15_genloadv1_well_scoped_inputs`, as a test on the inputs -/
+def premisesB (g : VIn) (outer : List S) : Bool :=
+  g.fields.all lookupOkB &&
+  (skeletonOuter g).all (fun n => outer.contains n) &&
+  g.fields.all (fun f => (f.exprWrites ++ f.exprBinds).all (fun n => !allOuter.contains n)) &&
+  g.fields.all (fun f => f.exprReads.all (fun n => n == t "v1" || (outer.contains n && !bindableB g n)))
+
 end DW.GenLoadV1
